@@ -141,9 +141,9 @@ type Explorer struct {
 	Exhausted bool
 	States    int
 
-	census *Census
-	pinned map[string]bool
-	valPin map[string]bool // register name -> assumed truth
+	census   *Census
+	pinned   map[string]bool
+	valPin   map[string]bool // register name -> assumed truth
 	regBlock map[string]*ssa.BasicBlock
 	allocs   map[string]*ssa.Alloc
 	regFns   map[*ssa.Function]bool
@@ -252,6 +252,13 @@ func regsOf(k string) []string {
 			for j < len(k) && k[j] >= '0' && k[j] <= '9' {
 				j++
 			}
+			// helper-qualified registers: t12_h3
+			if j > i+1 && j+2 < len(k) && k[j] == '_' && k[j+1] == 'h' && k[j+2] >= '0' && k[j+2] <= '9' {
+				j += 2
+				for j < len(k) && k[j] >= '0' && k[j] <= '9' {
+					j++
+				}
+			}
 			if j > i+1 && (j >= len(k) || !isIdent(k[j])) {
 				out = append(out, k[i:j])
 			}
@@ -352,17 +359,17 @@ var pureInvoke = map[string]bool{
 	"(io/fs.DirEntry).IsDir": true, "(io/fs.DirEntry).Type": true, "(io/fs.DirEntry).Name": true,
 	"(io/fs.FileMode).IsDir": true, "(io/fs.FileMode).IsRegular": true, "(io/fs.FileMode).Perm": true, "(io/fs.FileMode).Type": true,
 	"fsutil.fileCanRequestData": true,
-	"os.IsNotExist":            true, "os.IsPermission": true, "os.IsExist": true, "os.IsPathSeparator": true,
+	"os.IsNotExist":             true, "os.IsPermission": true, "os.IsExist": true, "os.IsPathSeparator": true,
 	"errors.Is": true, "github.com/pkg/errors.Is": true,
 	"fsutil.isNotExist": true, "fsutil.isNotFound": true,
-	"(*github.com/moby/patternmatcher.Pattern).Exclusion":        true,
+	"(*github.com/moby/patternmatcher.Pattern).Exclusion":         true,
 	"(*github.com/moby/patternmatcher.PatternMatcher).Exclusions": true,
 }
 
 // memory-dependent observers: key carries a '*' so that it is invalidated
 // like a load.
 var memPure = map[string]bool{
-	"types.(*Stat).IsDir": true,
+	"types.(*Stat).IsDir":      true,
 	"fsutil.(*StatInfo).IsDir": true, "fsutil.(*StatInfo).Mode": true, "fsutil.(*StatInfo).Sys": true,
 	"fsutil.(*StatInfo).Size": true,
 }
@@ -779,6 +786,12 @@ func truthOfKey(k string, st *State) (val, known bool) {
 			if ca && cb {
 				return res(a == b)
 			}
+			// a boolean compared with a constant: (x == true) is x, (x == false) is !x
+			if b == "c:true" || b == "c:false" {
+				if tv, known := truthOfKey(a, st); known {
+					return res(tv == (b == "c:true"))
+				}
+			}
 			if b == "nil" {
 				if nonNilKey(a, st) {
 					return res(false)
@@ -1022,11 +1035,12 @@ func (x *Explorer) Run() []Hit {
 				continue
 			}
 			visited[h] = true
-			if x.Debug != nil && top {
-				if x.Debug[b.Index] == nil {
-					x.Debug[b.Index] = map[string]bool{}
+			if x.Debug != nil {
+				di := b.Index + 1000*len(it.frames)
+				if x.Debug[di] == nil {
+					x.Debug[di] = map[string]bool{}
 				}
-				x.Debug[b.Index][h] = true
+				x.Debug[di][h] = true
 			}
 		}
 		stopped := false
